@@ -73,7 +73,7 @@ def gen(rng, tier, i):
                                        'only': [0] if len(batches) > 1 and rng.random() < 0.5 else None})
         elif kind == 'restore':
             if len(batches) > 1:
-                pairs.append({'kind': 'restore', 'cls': rng.choice(['cpu', 'gpu']), 'after': sorted(set(rng.randrange(len(batches) - 1) for _ in range(rng.randint(1, 2)))),
+                pairs.append({'kind': 'restore', 'cls': rng.choice(['cpu', 'gpu']), 'after': sorted(set(rng.randrange(-1, len(batches) - 1) for _ in range(rng.randint(1, 2)))),
                               'c_reuse': rng.random() < 0.5, 'sched': wavegen.gen_order_sched(rng), 'block': wavegen.gen_block(rng)})
         elif kind == 'dataset':
             if n_sets > 1:
